@@ -3,6 +3,8 @@ import itertools
 import random
 
 import numpy as np
+import uxarray as ux
+import xarray as xr
 
 from .common import FILL, grid_from, mixed_grid, result
 
@@ -221,9 +223,38 @@ def _check_histories(tier, seed):
                       {"mesh": name, "accessed": [acc], "difference": tag})
         if len(h.samples) < 3:
             h.samples.append({"mesh": name, "n_node": int(len(desc[1])), "n_face": int(desc[3].shape[0])})
+    # 6b. source-supplied face / edge centres in another longitude convention than the nodes (0..360 with values above 180 while a
+    #     node sits exactly on +180): the node coordinates the comparison reads are those given, so the grid equals its twin
+    #     built without the centres and a copy taken before the centres were attached
+    for name, desc in descs[:3]:
+        spec, lon, lat, faces = desc
+        lon2 = lon.copy()
+        lon2[int(np.argmax(lon2))] = 180.0
+        d2 = (spec, lon2, lat, faces)
+        nfc = faces.shape[0]
+        flon = np.linspace(185.0, 300.0, nfc)
+        flat = np.linspace(-20.0, 20.0, nfc)
+        inp = {"mesh": name, "node_lon_max": 180.0, "face_lon": "0..360 convention, values above 180"}
+        try:
+            plain = _build(d2)
+            withc = ux.Grid.from_topology(node_lon=lon2.copy(), node_lat=lat.copy(), face_node_connectivity=faces.copy(), fill_value=FILL,
+                                          face_lon=flon.copy(), face_lat=flat.copy())
+        except Exception:  # noqa: BLE001
+            continue
+        h.compare(plain, withc, True, "centres_supplied_in_other_convention", "construction", inp)
+        _touch(withc, ["edge_lon", "face_lon", "node_lon"])
+        h.compare(plain, withc, True, "centres_supplied_in_other_convention", "after_reading_lon_properties", inp)
+        early = _build(d2)
+        cp = early.copy()
+        try:
+            early.face_lon = xr.DataArray(flon.copy(), dims=["n_face"])
+            early.face_lat = xr.DataArray(flat.copy(), dims=["n_face"])
+            _touch(early, ["edge_lon", "edge_lat", "node_lon"])
+        except Exception:  # noqa: BLE001
+            continue
+        h.compare(early, cp, True, "centres_attached_after_copy", "setter_then_edge_lon", inp)
     # 7. grids given by Cartesian corners only (lon / lat derived on first access, whichever coordinate is read first): twins and
     #    copies compare equal whatever was read, in whatever order, on either operand
-    import uxarray as ux
     quads = [m for m in cat if all(sum(1 for v in row if v != FILL) == 4 for row in m["faces"]) and m["n_face"] <= 30]
     quads = [m for m in quads if np.min(m["lon"]) < -20.0][: (6 if tier == "thorough" else 2)]
     coord_orders = [("node_lat", "node_lon"), ("node_lon", "node_lat"), ("node_lat",), ("node_lon",), ("face_lon",), ("bounds", "node_lat")]
